@@ -277,6 +277,22 @@ class Env:
                         ('PyLong_AsUnsignedLong', 64, False), ('PyLong_AsUnsignedLongLong', 64, False), ('PyLong_AsSize_t', 64, False)):
             as_c(n, b, s)
 
+        def as_c_overflow(n, bits):
+            @stub(n)
+            def _(g, a, rt, n=n, bits=bits):
+                gh = self.ghost_of(a[0])
+                if gh is None or gh.get('kind') != 'int':
+                    raise Unsupported('%s on an object without integer ghost value' % n)
+                V = gh['value']
+                lo, hi = -(1 << (bits - 1)), (1 << (bits - 1)) - 1
+                small, big = V < z3.BitVecVal(lo, WIDE), V > z3.BitVecVal(hi, WIDE)
+                ov = z3.If(big, z3.BitVecVal(1, 32), z3.If(small, z3.BitVecVal(-1, 32), z3.BitVecVal(0, 32)))
+                ex.store(a[1], ov, ir.T('int', bits=32), g, 'stub')
+                self.event(g, n, a)
+                return z3.If(z3.Or(small, big), z3.BitVecVal(-1, bits), z3.Extract(bits - 1, 0, V))
+        for n, b in (('PyLong_AsLongAndOverflow', 64), ('PyLong_AsLongLongAndOverflow', 64)):
+            as_c_overflow(n, b)
+
         # ---- error indicator
         @stub('PyErr_SetString', 'PyErr_SetObject')
         def _(g, a, rt):
